@@ -129,9 +129,12 @@ func MsgClass(s string) string {
 		s = s[:i]
 	}
 	// "no decoration found for // comment text": keep the fixed prefix only
-	for _, p := range []string{"no decoration found for", "duplicate node"} {
+	for _, p := range []string{"no decoration found for", "duplicate node", "Path "} {
 		if strings.HasPrefix(s, p) {
 			s = p
+			if p == "Path " {
+				s = "Path set on illegal Ident"
+			}
 		}
 	}
 	if len(s) > 70 {
